@@ -525,13 +525,14 @@ static bool has_varargs(MacroArg *args) {
 }
 
 // Replace func-like macro parameters with given arguments.
-static Token *subst(Token *tok, MacroArg *args) {
+static Token *subst(Token *tok, MacroArg *args, bool is_objlike) {
   Token head = {};
   Token *cur = &head;
 
   while (tok->kind != TK_EOF) {
     // "#" followed by a parameter is replaced with stringized actuals.
-    if (equal(tok, "#")) {
+    // It is an ordinary token in an object-like macro.
+    if (equal(tok, "#") && !is_objlike) {
       MacroArg *arg = find_arg(args, tok->next);
       if (!arg)
         error_tok(tok->next, "'#' is not followed by a macro parameter");
@@ -612,7 +613,7 @@ static Token *subst(Token *tok, MacroArg *args) {
     if (equal(tok, "__VA_OPT__") && equal(tok->next, "(")) {
       MacroArg *arg = read_macro_arg_one(&tok, tok->next->next, true);
       if (has_varargs(args))
-        for (Token *t = subst(arg->tok, args); t->kind != TK_EOF; t = t->next)
+        for (Token *t = subst(arg->tok, args, false); t->kind != TK_EOF; t = t->next)
           cur = cur->next = t;
       tok = skip(tok, ")");
       continue;
@@ -660,7 +661,7 @@ static bool expand_macro(Token **rest, Token *tok) {
   // Object-like macro application
   if (m->is_objlike) {
     Hideset *hs = hideset_union(tok->hideset, new_hideset(m->name));
-    Token *body = add_hideset(m->body, hs);
+    Token *body = add_hideset(subst(m->body, NULL, true), hs);
     for (Token *t = body; t->kind != TK_EOF; t = t->next)
       t->origin = tok;
     *rest = append(body, tok->next);
@@ -689,7 +690,7 @@ static bool expand_macro(Token **rest, Token *tok) {
   Hideset *hs = hideset_intersection(macro_token->hideset, rparen->hideset);
   hs = hideset_union(hs, new_hideset(m->name));
 
-  Token *body = subst(m->body, args);
+  Token *body = subst(m->body, args, false);
   body = add_hideset(body, hs);
   for (Token *t = body; t->kind != TK_EOF; t = t->next)
     t->origin = macro_token;
